@@ -193,3 +193,39 @@ CONTRACTS["optimization:Measurable.get_objective_val#a_single_year"] = dict(
     schema=schema, fragment={"before": "if self.measurable_name in model.progset.programs"}, make_env=_env_years(False),
     ensures=[("C15.a_single_year_selects_exactly_that_time_point", "len(t_filter) == n and all(t_filter[i] == (TV[i] == LOW) for i in range(n))")],
     defined_props=["C15"])
+
+
+# ---- MaximizeCascadeStage.get_objective_val and its constructor (C15: "the objective they evaluate is the documented sum of the requested outputs over the requested years and
+# populations"): the sum, over the requested populations (or aggregations) and the requested stages, of the stage's values over the requested times; the weight is negated so
+# that minimising the objective maximises the stage.  get_cascade_vals (property C20) and Result are ghosts.
+def _env_stage(it):
+    from pyvc.interp import PyObjV
+    from pyvc.core import LArr
+    from pyvc import source
+
+    v = {(p, s): [z3.Real("v_%s_%s_%d" % (p, s, k)) for k in range(2)] for p in ("a", "b") for s in ("diagnosed", "treated", "suppressed")}
+    self = PyObjV("MaximizeCascadeStage", source.load("optimization"), {"measurable_name": "main", "t": [2020.0, 2021.0], "pop_names": ["a", "b"], "cascade_stage": ["treated", "suppressed"], "weight": -1.0})
+    env = {"self": self, "model": PyObjV("Model", source.load("model"), {"t": None}), "baseline": None, "V": v, "CALLS": []}
+    env.update({"v_%s_%s_%d" % (p, s, k): v[(p, s)][k] for (p, s) in v for k in range(2)})
+    return env
+
+
+def _ghost_cascade_vals(it, result, cascade, pops="all", year=None):
+    it.live_env["CALLS"].append((cascade, pops, year))
+    V = it.live_env["V"]
+    return ({s: list(V[(pops, s)]) for s in ("diagnosed", "treated", "suppressed")}, year)
+
+
+CONTRACTS["optimization:MaximizeCascadeStage.get_objective_val"] = dict(
+    schema=schema, make_env=_env_stage, call_stubs={"get_cascade_vals": _ghost_cascade_vals, "Result": (lambda it, model=None: "RESULT"), "np.sum": (lambda it, xs: sum(xs[1:], xs[0]))},
+    ensures=[("C15.the_objective_is_the_sum_of_the_requested_stages_over_the_requested_populations_and_times",
+              "result == " + " + ".join("v_%s_%s_%d" % (p, s, k) for p in ("a", "b") for s in ("treated", "suppressed") for k in range(2))),
+             ("C15.each_population_is_looked_up_once_in_the_requested_cascade_at_the_requested_times", "len(CALLS) == 2 and CALLS[0] == ('main', 'a', [2020.0, 2021.0]) and CALLS[1] == ('main', 'b', [2020.0, 2021.0])")],
+    defined_props=["C15"])
+for _tag, _stage, _pops, _wstage, _wpops in (("defaults", -1, "all", [-1], ["all"]), ("lists", ["treated", 2], ["a", "b"], ["treated", 2], ["a", "b"]), ("an_aggregation", "treated", {"both": ["a", "b"]}, ["treated"], [{"both": ["a", "b"]}])):
+    CONTRACTS["optimization:MaximizeCascadeStage.__init__#%s" % _tag] = dict(
+        schema=schema, make_env=(lambda st, pp: (lambda it: {"self": __import__("pyvc.interp", fromlist=["PyObjV"]).PyObjV("MaximizeCascadeStage", __import__("pyvc.source", fromlist=["load"]).load("optimization"), {}),
+                                                             "cascade_name": "main", "t": 2020.0, "pop_names": pp, "weight": z3.Real("w"), "cascade_stage": st, "w": z3.Real("w")}))(_stage, _pops),
+        ensures=[("C15.the_stage_is_maximised_by_minimising_its_negative", "self.weight == -w and self.measurable_name == 'main' and self.t == 2020.0"),
+                 ("C15.stages_and_populations_are_kept_as_lists", "self.cascade_stage == %r and self.pop_names == %r" % (_wstage, _wpops))],
+        defined_props=["C15"])
